@@ -3,6 +3,7 @@ package rules
 import (
 	"fmt"
 	"go/ast"
+	"go/constant"
 	"go/token"
 	"go/types"
 	"strings"
@@ -386,6 +387,8 @@ func CheckC10(c *Ctx) {
 			c.zeroTimeHasError(ld)
 		}
 	}
+	c.freshElements("asset")
+	c.assetNameCodec()
 	if get := c.fn("asset", "InMemoryRepository", "Get"); get != nil {
 		// map lookup failure returns a non-nil error
 		good := false
@@ -921,4 +924,340 @@ func boolExprEval(info *types.Info, e ast.Expr, bound types.Object, ord int) (bo
 		}
 	}
 	return timeOrdEval(info, e, bound, ord)
+}
+
+// freshElements: a loop that fills an object and sends a reference to it must allocate the object
+// inside the loop. An object allocated before the loop, written inside it (fields assigned, its
+// address or the address of its fields passed to a call such as rows.Scan or Decode) and sent
+// inside it is one object delivered many times: once the stream has been collected every element
+// shows the last row.
+func (c *Ctx) freshElements(rel string) {
+	run := c.Run
+	pk := c.P.Pkg(rel)
+	if pk == nil {
+		return
+	}
+	info := pk.TypesInfo
+	nSends := 0
+	refLike := func(t types.Type) bool {
+		switch t.Underlying().(type) {
+		case *types.Pointer, *types.Map, *types.Slice:
+			return true
+		}
+		return false
+	}
+	for _, f := range pk.Syntax {
+		if strings.HasSuffix(c.P.Fset.Position(f.Pos()).Filename, "_test.go") {
+			continue
+		}
+		for _, d := range f.Decls {
+			fd, ok := d.(*ast.FuncDecl)
+			if !ok || fd.Body == nil {
+				continue
+			}
+			var loops []ast.Node
+			var walk func(n ast.Node)
+			walk = func(n ast.Node) {
+				ast.Inspect(n, func(m ast.Node) bool {
+					switch x := m.(type) {
+					case *ast.ForStmt, *ast.RangeStmt:
+						if m == n {
+							return true
+						}
+						loops = append(loops, m)
+						walk(m)
+						loops = loops[:len(loops)-1]
+						return false
+					case *ast.FuncLit:
+						if m == n {
+							return true
+						}
+						saved := loops
+						loops = nil
+						walk(x)
+						loops = saved
+						return false
+					case *ast.SendStmt:
+						if len(loops) == 0 {
+							return true
+						}
+						id, isID := ast.Unparen(x.Value).(*ast.Ident)
+						if !isID {
+							return true
+						}
+						obj, _ := info.Uses[id].(*types.Var)
+						if obj == nil || !refLike(obj.Type()) {
+							return true
+						}
+						nSends++
+						loop := loops[len(loops)-1]
+						if obj.Pos() >= loop.Pos() && obj.Pos() < loop.End() {
+							c.ok() // declared per iteration (or the loop's own range variable)
+							return true
+						}
+						// declared outside: is it re-assigned in the loop, or only written through?
+						reassigned, written := false, false
+						why := ""
+						ast.Inspect(loop, func(k ast.Node) bool {
+							switch y := k.(type) {
+							case *ast.AssignStmt:
+								for _, l := range y.Lhs {
+									if lid, ok := l.(*ast.Ident); ok && info.ObjectOf(lid) == obj {
+										reassigned = true
+									} else if rootedAt(info, l, obj) {
+										written, why = true, exprString(l)+" = …"
+									}
+								}
+							case *ast.UnaryExpr:
+								if y.Op == token.AND && rootedAt(info, y.X, obj) {
+									written, why = true, exprString(y)
+								}
+							case *ast.CallExpr:
+								for _, a := range y.Args {
+									if aid, ok := ast.Unparen(a).(*ast.Ident); ok && info.ObjectOf(aid) == obj {
+										if fn := callee(info, y); fn == nil || fn.Name() != "append" {
+											written, why = true, exprString(y)
+										}
+									}
+								}
+							}
+							return true
+						})
+						good := reassigned || !written
+						run.Oblige(good)
+						if !good {
+							c.violate("repository/fresh-element", rel+"."+fd.Name.Name, "sends "+id.Name, x.Pos(),
+								"the object "+id.Name+" is allocated once before the loop, filled inside it ("+short(why, 60)+") and a reference to it is sent on every iteration: every element delivered is the same object, and after the stream was collected all of them show the last one")
+						}
+					}
+					return true
+				})
+			}
+			walk(fd.Body)
+		}
+	}
+	run.Count("reference_sends_in_loops", nSends)
+	run.Floor("reference_sends_in_loops", 1)
+}
+
+// rootedAt: e is obj.f, obj.f.g, obj[i], *obj … (a place inside the object obj refers to).
+func rootedAt(info *types.Info, e ast.Expr, obj types.Object) bool {
+	for {
+		switch x := e.(type) {
+		case *ast.ParenExpr:
+			e = x.X
+		case *ast.SelectorExpr:
+			if id, ok := x.X.(*ast.Ident); ok && info.ObjectOf(id) == obj {
+				return true
+			}
+			e = x.X
+		case *ast.IndexExpr:
+			if id, ok := x.X.(*ast.Ident); ok && info.ObjectOf(id) == obj {
+				return true
+			}
+			e = x.X
+		case *ast.StarExpr:
+			if id, ok := x.X.(*ast.Ident); ok && info.ObjectOf(id) == obj {
+				return true
+			}
+			e = x.X
+		default:
+			return false
+		}
+	}
+}
+
+// assetNameCodec: the file-system repository stores asset A in the file "A"+EXT (the name builder
+// behind Get/Append) and Assets() must invert exactly that: every listed name is a file name with
+// the suffix EXT removed by an exact inverse (strings.TrimSuffix / CutSuffix / a slice by the
+// suffix length) under a test that the name ends in EXT. A cutset function (TrimRight) or another
+// extension lists names that Get and Append do not map back to the same file.
+func (c *Ctx) assetNameCodec() {
+	run := c.Run
+	assets := c.fn("asset", "FileSystemRepository", "Assets")
+	get := c.fn("asset", "FileSystemRepository", "Get")
+	if assets == nil || get == nil {
+		run.Break("anchor missing: asset.(*FileSystemRepository).Assets/Get")
+		return
+	}
+	info := assets.Pkg.TypesInfo
+	site := "asset.(*FileSystemRepository).Assets"
+	// EXT from the builder reached from Get: a string constant "%s<EXT>" passed to Sprintf, or name + EXT
+	ext := ""
+	var scan func(fi *load.FuncInfo, depth int)
+	scan = func(fi *load.FuncInfo, depth int) {
+		ast.Inspect(fi.Decl.Body, func(n ast.Node) bool {
+			switch x := n.(type) {
+			case *ast.CallExpr:
+				nm := calleeName(info, x)
+				if nm == "fmt.Sprintf" && len(x.Args) == 2 {
+					if tv, ok := info.Types[x.Args[0]]; ok && tv.Value != nil {
+						if f := constant.StringVal(tv.Value); strings.HasPrefix(f, "%s") && !strings.Contains(f[2:], "%") {
+							ext = f[2:]
+						}
+					}
+				}
+				if fn := callee(info, x); fn != nil && depth < 2 {
+					if d := c.P.Decls[fn.Origin()]; d != nil && d.Decl.Body != nil && d.Pkg == fi.Pkg && d != fi {
+						scan(d, depth+1)
+					}
+				}
+			case *ast.BinaryExpr:
+				if x.Op == token.ADD {
+					if tv, ok := info.Types[x.Y]; ok && tv.Value != nil && tv.Value.Kind() == constant.String {
+						if s := constant.StringVal(tv.Value); strings.HasPrefix(s, ".") {
+							ext = s
+						}
+					}
+				}
+			}
+			return true
+		})
+	}
+	scan(get, 0)
+	if ext == "" {
+		c.violate("repository/asset-names", site, "extension", get.Decl.Pos(), "the file name of an asset is no longer its name followed by a constant extension (undecided, fails closed)")
+		return
+	}
+	// string value of an expression in Assets: constant or single-definition local
+	defs := singleDefs(info, assets.Decl.Body)
+	var strOf func(e ast.Expr) (string, bool)
+	strOf = func(e ast.Expr) (string, bool) {
+		if tv, ok := info.Types[e]; ok && tv.Value != nil && tv.Value.Kind() == constant.String {
+			return constant.StringVal(tv.Value), true
+		}
+		if id, ok := ast.Unparen(e).(*ast.Ident); ok {
+			if d, ok := defs[info.Uses[id]]; ok {
+				return strOf(d)
+			}
+		}
+		return "", false
+	}
+	nNames := 0
+	parents := buildParents(assets.Decl)
+	ast.Inspect(assets.Decl.Body, func(n ast.Node) bool {
+		call, ok := n.(*ast.CallExpr)
+		if !ok {
+			return true
+		}
+		id, isID := call.Fun.(*ast.Ident)
+		if !isID || id.Name != "append" || len(call.Args) < 2 {
+			return true
+		}
+		if t, ok := info.TypeOf(call.Args[0]).Underlying().(*types.Slice); !ok || !types.Identical(t.Elem(), types.Typ[types.String]) {
+			return true
+		}
+		for _, a := range call.Args[1:] {
+			nNames++
+			v := a
+			if vid, ok := ast.Unparen(a).(*ast.Ident); ok {
+				if d, ok := defs[info.Uses[vid]]; ok {
+					v = d
+				}
+			}
+			good, why := false, "the listed name is "+exprString(v)
+			switch x := ast.Unparen(v).(type) {
+			case *ast.CallExpr:
+				switch calleeName(info, x) {
+				case "strings.TrimSuffix":
+					if s, ok := strOf(x.Args[1]); ok && s == ext {
+						good = true
+					} else {
+						why = "the suffix removed (" + exprString(x.Args[1]) + ") is not the extension " + ext + " the files are written with"
+					}
+				case "strings.TrimRight", "strings.TrimLeft", "strings.Trim":
+					why = calleeName(info, x) + " removes every trailing character that occurs in its second argument (a cutset), not the suffix " + ext + ": an asset whose name ends in one of those characters is listed under a truncated name"
+				}
+			case *ast.SliceExpr:
+				// name[:len(name)-len(suffix)]
+				if x.Low == nil && x.High != nil {
+					if be, ok := x.High.(*ast.BinaryExpr); ok && be.Op == token.SUB {
+						if lc, ok := be.Y.(*ast.CallExpr); ok && len(lc.Args) == 1 {
+							if s, ok := strOf(lc.Args[0]); ok && s == ext {
+								good = true
+							}
+						}
+						if tv, ok := info.Types[be.Y]; ok && tv.Value != nil {
+							if k, ok := constant.Int64Val(tv.Value); ok && int(k) == len(ext) {
+								good = true
+							}
+						}
+					}
+				}
+			case *ast.Ident:
+				// before, found := strings.CutSuffix(name, suffix)
+				ast.Inspect(assets.Decl.Body, func(m ast.Node) bool {
+					as, ok := m.(*ast.AssignStmt)
+					if !ok || len(as.Lhs) != 2 || len(as.Rhs) != 1 {
+						return true
+					}
+					l0, ok := as.Lhs[0].(*ast.Ident)
+					if !ok || info.ObjectOf(l0) != info.ObjectOf(x) {
+						return true
+					}
+					if cc, ok := as.Rhs[0].(*ast.CallExpr); ok && calleeName(info, cc) == "strings.CutSuffix" {
+						if s, ok := strOf(cc.Args[1]); ok && s == ext {
+							good = true
+						}
+					}
+					return true
+				})
+			}
+			if good {
+				// only files that carry the extension are assets
+				guarded := false
+				for p := parents[ast.Node(call)]; p != nil; p = parents[p] {
+					is, ok := p.(*ast.IfStmt)
+					if !ok {
+						continue
+					}
+					ast.Inspect(is.Cond, func(m ast.Node) bool {
+						switch y := m.(type) {
+						case *ast.CallExpr:
+							if calleeName(info, y) == "strings.HasSuffix" && len(y.Args) == 2 {
+								if s, ok := strOf(y.Args[1]); ok && s == ext {
+									guarded = true
+								}
+							}
+						case *ast.BinaryExpr:
+							if y.Op == token.EQL {
+								for _, pair := range [][2]ast.Expr{{y.X, y.Y}, {y.Y, y.X}} {
+									if cc, ok := pair[0].(*ast.CallExpr); ok && calleeName(info, cc) == "path/filepath.Ext" {
+										if s, ok := strOf(pair[1]); ok && s == ext {
+											guarded = true
+										}
+									}
+								}
+							}
+						case *ast.Ident:
+							if b, ok := info.TypeOf(y).(*types.Basic); ok && b.Kind() == types.Bool {
+								// the found result of strings.CutSuffix
+								ast.Inspect(assets.Decl.Body, func(k ast.Node) bool {
+									if as, ok := k.(*ast.AssignStmt); ok && len(as.Lhs) == 2 && len(as.Rhs) == 1 {
+										if l1, ok := as.Lhs[1].(*ast.Ident); ok && info.ObjectOf(l1) == info.ObjectOf(y) {
+											if cc, ok := as.Rhs[0].(*ast.CallExpr); ok && calleeName(info, cc) == "strings.CutSuffix" {
+												guarded = true
+											}
+										}
+									}
+									return true
+								})
+							}
+						}
+						return true
+					})
+				}
+				if !guarded {
+					good, why = false, "the name is listed without a test that the file name ends in "+ext+": every other file in the directory becomes an asset"
+				}
+			}
+			run.Oblige(good)
+			if !good {
+				c.violate("repository/asset-names", site, short(exprString(v), 60), a.Pos(), "Assets() must list exactly the names whose files Get and Append use (name + \""+ext+"\"): "+why)
+			}
+		}
+		return true
+	})
+	run.Count("listed_asset_names", nNames)
+	run.Floor("listed_asset_names", 1)
 }
